@@ -346,12 +346,21 @@ func (r *runner) denyHoldsUntilItsExpiry() []lib.Violation {
 	st2, _, _ := r.rl.Session(topic, r.bearer(bid, t0+600))
 	dl, _ := r.rl.BidList("deny", r.admin)
 	note("t0+3.4 session with a long token -> %d, on deny list: %v", st2, has(dl, bid))
+	if late := time.Since(time.Unix(t0+3, 400e6)); late > 1200*time.Millisecond {
+		// the machine stalled: the observation was made too close to (or after) the deny's own expiry - ambiguous, not judged
+		r.rl.Allow(bid, time.Now().Unix()+1, r.admin)
+		return out
+	}
 	if st2 == 200 || !has(dl, bid) {
 		bad("deny-lapsed-before-its-expiry", "the deny was given expiry t0+5, no allow was requested, yet at t0+3.4 the booking is accepted again / off the deny list")
 	}
 	time.Sleep(time.Until(time.Unix(t0+6, 600e6)))
 	st3, _, _ := r.rl.Session(topic, r.bearer(bid, t0+600))
-	note("t0+6.6 session with a long token -> %d", st3)
+	for i := 0; st3 != 200 && i < 8; i++ { // generous: give a stalled prune loop up to 2.4 s more
+		time.Sleep(300 * time.Millisecond)
+		st3, _, _ = r.rl.Session(topic, r.bearer(bid, t0+600))
+	}
+	note("t0+6.6 (or up to 2.4 s later) session with a long token -> %d", st3)
 	if st3 != 200 {
 		bad("deny-outlives-its-expiry", "the deny's own expiry t0+5 has passed (and the prune loop runs every 250 ms) but the booking is still refused at t0+6.6")
 	}
